@@ -101,3 +101,28 @@ Section Checked.
     now rewrite (verify_structs_same st order []).
   Qed.
 End Checked.
+
+(* ---- the packed size the MIR lowering computes for a struct parameter (mir.rs) ---- *)
+Lemma resolve_param_oversized checked fuel st p t :
+  resolve_ty fuel st (p_ty p) = Ok t -> (usize_max <= mty_size t)%N ->
+  resolve_param_gen checked fuel st p = if checked then Reject ROverflow else Ok (mkMP (p_out p) t (p_shape p) (p_name p)).
+Proof.
+  intros H Hs. unfold resolve_param_gen. rewrite H. cbn [obind].
+  destruct checked; cbn [andb]; [|reflexivity].
+  destruct (N.leb_spec usize_max (mty_size t)); [reflexivity|lia].
+Qed.
+
+Lemma resolve_param_fits fuel st p mp :
+  resolve_param_gen true fuel st p = Ok mp -> (mty_size (mp_ty mp) < usize_max)%N.
+Proof.
+  unfold resolve_param_gen. destruct (resolve_ty fuel st (p_ty p)) as [t| | |]; cbn [obind]; try discriminate.
+  cbn [andb]. destruct (N.leb_spec usize_max (mty_size t)); [discriminate|].
+  intro E. injection E as <-. exact H.
+Qed.
+
+(* witness: five levels of 65535-element arrays *)
+Local Open Scope string_scope.
+Definition huge_ty : mty :=
+  MStruct "L4" [("a", MStruct "L3" [("a", MStruct "L2" [("a", MStruct "L1" [("a", MStruct "L0" [("a", MPrim U8, 65535)], 65535)], 65535)], 65535)], 65535)].
+Lemma huge_overflows : (usize_max <=? mty_size huge_ty)%N = true.
+Proof. vm_compute. reflexivity. Qed.
